@@ -43,6 +43,7 @@ def stepLine (st : Top) : List String → Top × String
     match parseSchedule toks with
     | some s => ({ st with sched := s, toks := toks }, "ok")
     | none => (st, "bad-op")
+  | ["spurious-futex", _] => (st, if st.conf.isSome then "ok" else "bad-op")
   | ["run"] =>
     match st.conf with
     | some c => (st, "\n".intercalate (runConf c st.sched st.toks))
